@@ -134,6 +134,13 @@ theorem itemLabels_single_ins (i : Ins) : itemLabels [Item.ins i] = [] := rfl
 theorem curOf_nil_append (ol : Open) (pre : List Item) : curOf ol (pre ++ []) = curOf ol pre := by
   rw [List.append_nil]
 
+theorem initAddr_straight (c : Ctx) (slot : Nat) (t : CSem.Ty) (j : Nat) :
+    Straight c (initAddr c slot t j) := by
+  unfold initAddr
+  split
+  · exact Straight.refl _ _
+  · exact funcinst_straight _ _ _ _
+
 /-- the arguments of a call, lowered one after the other -/
 theorem lowerArgs_good (cs : Bool) (σ : List Nat) (es : List Expr) :
     ∀ c : Ctx, c.lastid ≤ (lowerArgs cs σ es c).2.2.lastid ∧ c.blockid ≤ (lowerArgs cs σ es c).2.2.blockid ∧
@@ -998,6 +1005,39 @@ theorem funcstmt_good' (cs : Bool) (st : Stmt) : ∀ (brk cont : String) (c : SC
         exact ⟨name, j, by rw [c1]; exact h1, by omega⟩
       obtain ⟨name, j, h1, h2⟩ := g.curOK hc1
       exact ⟨name, j, by unf; rw [c5, c4, c3]; exact h1, by unf; omega⟩
+  | ainit arr t n xb j e =>
+    intro brk cont c hj0 _
+    have hj : c.jump = none := by
+      rcases hj0 with h | h
+      · exact h
+      · simp [Stmt.startsLabel] at h
+    clear hj0
+    simp only [funcstmt, funcopen_none hj, List.nil_append]
+    have s1 := initAddr_straight c.ctx (c.slots.getD arr 0) t j
+    generalize hoa : initAddr c.ctx (c.slots.getD arr 0) t j = oa at s1 ⊢
+    have g := funcexpr3_good cs c.slots e oa.ctx
+    generalize hoe : funcexpr3 cs c.slots e oa.ctx = oe at g ⊢
+    have l1 := s1.lastid; have b1 := s1.blockid; have c1 := s1.cur
+    have l2 := g.lastid; have b2 := g.blockid
+    simp only [ctx_lastid, ctx_blockid, ctx_cur] at l1 b1 c1
+    refine ⟨by unf; omega, by unf; omega, ?_, ?_, ?_, fun _ => hj,
+      fun new h => sorted_of_eq (new' := []) (by rw [List.append_nil]; exact h) List.Pairwise.nil,
+      [], by simp, rfl, by simp, rfl⟩
+    · simp only [itemLabels_append, itemLabels, itemLabels_allIns _ s1.allIns, List.append_nil, List.nil_append]
+      exact g.labels.weaken (by intro j h; unf at h ⊢; omega)
+    · intro ol' pre hp
+      simp only [← List.append_assoc]
+      rw [curOf_ins]
+      unf
+      refine g.cur ol' _ ?_
+      rw [curOf_append_allIns _ _ _ s1.allIns, hp, c1]
+    · intro hc
+      have hc1 : CurOK oa.ctx := by
+        obtain ⟨name, j, h1, h2⟩ := hc
+        simp only [ctx_cur, ctx_blockid] at h1 h2
+        exact ⟨name, j, by rw [c1]; exact h1, by omega⟩
+      obtain ⟨name, j, h1, h2⟩ := g.curOK hc1
+      exact ⟨name, j, by unf; exact h1, by unf; omega⟩
   | adecl i t n xb =>
     intro brk cont c hj0 _
     have hj : c.jump = none := by
